@@ -34,14 +34,15 @@ def _leaks(secret: str, text) -> bool:
     return secret in str(text)
 
 
-def value_sanitized(k: int, secret: str, as_list: bool, depth: int, sibling: int) -> bool:
+def value_sanitized(k: int, secret: str, as_list: bool, depth: int, sibling: int, extra: int) -> bool:
     """
-    pre: 0 <= k < len(KEYS) and len(secret) <= N and _is_secret_text(secret) and 0 <= depth <= 2 and 0 <= sibling < len(KEYS)
+    pre: 0 <= k < len(KEYS) and len(secret) <= N and _is_secret_text(secret) and 0 <= depth <= 2 and 0 <= sibling < len(KEYS) and extra == param(0) % 3 and depth == param(0) // 3 % 3
     post: _
     """
     key, sensitive = pick(KEYS, k)
     other_key, other_sensitive = pick(KEYS, sibling)
-    inner = {key: [secret] if as_list else secret}
+    values = [secret] + [secret + "J", "Q" + secret][:extra]  # a header / query parameter may carry several values
+    inner = {key: list(values) if as_list else secret}
     if other_key != key:
         inner[other_key] = "plain"
     item = inner
@@ -52,9 +53,12 @@ def value_sanitized(k: int, secret: str, as_list: bool, depth: int, sibling: int
     sz.sanitize_value(item)
     got = inner[key]
     if sensitive:
-        if got != (["[Filtered]"] if as_list else "[Filtered]"):
+        if as_list:
+            if not got or any(v != "[Filtered]" for v in got):
+                return False  # every value of a multi-valued sensitive key is redacted
+        elif got != "[Filtered]":
             return False
-    elif got != ([secret] if as_list else secret):
+    elif got != (values if as_list else secret):
         return False  # benign values are left alone
     if other_key != key and inner[other_key] != ("[Filtered]" if other_sensitive else "plain"):
         return False
@@ -75,15 +79,16 @@ def _urlsplit(url: str):
     return SplitResult(scheme, netloc, path, query, "")
 
 
-def url_sanitized(userinfo: str, k: int, has_userinfo: bool) -> bool:
+def url_sanitized(userinfo: str, k: int, has_userinfo: bool, with_port: bool) -> bool:
     """
     pre: 1 <= len(userinfo) <= NU and all(c in SECRET_ALPHABET for c in userinfo) and any(c in "QJZ" for c in userinfo)
-    pre: 0 <= k <= 3
+    pre: 0 <= k <= 3 and with_port == bool(param(0) % 2) and has_userinfo == bool(param(0) // 2 % 2)
     post: _
     """
     secret = "QJ"  # the query value goes through urllib's byte-level quoting (realised by CrossHair): concrete here, symbolic in value_sanitized
     qkey, sensitive = pick([("api_key", True), ("access_token", True), ("page", False), ("q", False)], k)
-    netloc = (userinfo + "@" if has_userinfo else "") + "h.io"
+    host = "h.io:8081" if with_port else "h.io"
+    netloc = (userinfo + "@" if has_userinfo else "") + host
     query = qkey + "=" + secret + "&lim=1"
     url = "http://" + netloc + "/a/b?" + query
     _PARTS[:] = ["http", netloc, "/a/b", query]
@@ -95,7 +100,7 @@ def url_sanitized(userinfo: str, k: int, has_userinfo: bool) -> bool:
         sz.urlsplit = saved
     # exact expectation (cheap to decide): credentials replaced as a whole whatever '@' / ':' they contain, sensitive query value redacted
     want_query = (qkey + "=%5BFiltered%5D" if sensitive else qkey + "=" + secret) + "&lim=1"
-    want = "http://" + ("[Filtered]@" if has_userinfo else "") + "h.io/a/b?" + want_query
+    want = "http://" + ("[Filtered]@" if has_userinfo else "") + host + "/a/b?" + want_query
     return out == want
 
 
@@ -199,15 +204,15 @@ def curl_command_clean(secret: str, where: int, sanitize: bool, nested: bool) ->
 
 
 OBLIGATIONS = [
-    Ob(fn="value_sanitized", clause="values under credential-bearing names (exact keys in any letter case, names containing a sensitive marker) are replaced by the redaction marker at any nesting depth, lists included; others are untouched",
-       timeout={"quick": 300, "thorough": 900}, functions=["schemathesis.core.output.sanitization.sanitize_value"],
-       symbolic="which of 19 key spellings carries the secret, the secret text, list or scalar, nesting depth 0-2, a sibling key", bounds={"quick": "secret <= 2 characters", "thorough": "<= 3"}),
+    Ob(fn="value_sanitized", props=["C15"], clause="values under credential-bearing names (exact keys in any letter case, names containing a sensitive marker) are replaced by the redaction marker at any nesting depth, lists included; others are untouched",
+       timeout={"quick": 300, "thorough": 900}, params=range(9), functions=["schemathesis.core.output.sanitization.sanitize_value"],
+       symbolic="which of 19 key spellings carries the secret, the secret text, scalar or list of 1-3 values, nesting depth 0-2, a sibling key", bounds={"quick": "secret <= 2 characters", "thorough": "<= 3"}),
     Ob(fn="url_sanitized", clause="URL userinfo and sensitive query parameters do not appear in sanitized URLs; other parts survive",
-       timeout={"quick": 300, "thorough": 900}, functions=["schemathesis.core.output.sanitization.sanitize_url"],
-       symbolic="userinfo text over {X,Y,Z,@,:}, query value, which query key (2 sensitive, 2 benign)", bounds={"quick": "userinfo and secret <= 2 characters", "thorough": "<= 3"},
+       timeout={"quick": 300, "thorough": 900}, params=range(4), functions=["schemathesis.core.output.sanitization.sanitize_url"],
+       symbolic="userinfo text over {Q,J,Z,@,:}, explicit port or not, which query key (2 sensitive, 2 benign)", bounds={"quick": "userinfo and secret <= 2 characters", "thorough": "<= 3"},
        stubs=["urllib.parse.urlsplit replaced by a splitter for scheme://netloc/path?query (CPython's implementation takes ~5 s per symbolic path)"],
        outside=["percent-encoded userinfo, IPv6 hosts"]),
-    Ob(fn="customised_config", clause="customising the key / marker lists at run time changes exactly that set, through every entry point",
+    Ob(fn="customised_config", props=["C15"], clause="customising the key / marker lists at run time changes exactly that set, through every entry point",
        timeout=300, functions=["schemathesis.core.output.sanitization.configure", "schemathesis.core.output.sanitization.extend", "schemathesis.core.output.sanitization.SanitizationConfig.from_config",
                                "schemathesis.core.output.sanitization.SanitizationConfig.extend", "schemathesis.core.output.sanitization.sanitize_value", "schemathesis.core.output.sanitization.sanitize_url"],
        symbolic="which customisation was applied before (none / extend / configure, keys or markers), entry point (value or URL), nesting", bounds="5 histories of one customisation call"),
